@@ -382,37 +382,92 @@ def run(cx, rep):
                "bit length = bytes*8 split into high (/2^32) and low (>>>0) words (found %s)" % bl, mod.loc(dg))
     # ---------------------------------------------------------------- C13.3 (writer primitives)
     rep.rule("C13.3", "prefix-free framing")
+    # private writer primitives, discovered by role (their names are the maintainers' business):
+    #   bytes_w  - the method (one parameter) that feeds the block buffer: it calls the compression function
+    #   byte_w   - hands bytes_w a one-element Uint8Array.of(param)
+    #   u32_w    - hands bytes_w a four-element Uint8Array.of(..) (big-endian word)
+    #   utf8_w   - encodes its parameter, then u32_w(length), then bytes_w(bytes)
+    def this_calls(fn):
+        out = []
+        for n in walk(fn):
+            if n["type"] == "CallExpression":
+                mc = method_call(n)
+                if mc and s(mc[0]) == "this":
+                    out.append((mc[1], mc[2], n))
+        return out
+    priv = {mn: m for mn, m in w.methods.items() if m["function"].get("body") is not None and mn != pc_name}
+    bytes_w = [mn for mn, m in priv.items() if len(m["function"]["params"]) == 1 and any(c[0] == pc_name for c in this_calls(m["function"]))
+               and not any(nn["type"] == "CallExpression" and s(nn["callee"]).endswith(".encode") for nn in walk(m["function"]))]
+    # (the finalisation also calls the compression function but takes no parameter)
+    bytes_w = bytes_w[0] if len(bytes_w) == 1 else None
+    byte_w = u32_w = utf8_w = None
+
+    def of_len(arg):
+        a = unparen(arg)
+        if a.get("type") == "CallExpression" and s(a["callee"]) in ("Uint8Array.of", "Uint8Array.from"):
+            if s(a["callee"]) == "Uint8Array.of":
+                return len(a["arguments"])
+            inner = unparen(a["arguments"][0]["expression"]) if a["arguments"] else {}
+            if inner.get("type") == "ArrayExpression":
+                return len(inner["elements"])
+        if a.get("type") == "NewExpression" and s(a["callee"]) == "Uint8Array" and a.get("arguments"):
+            inner = unparen(a["arguments"][0]["expression"])
+            if inner.get("type") == "ArrayExpression":
+                return len(inner["elements"])
+        return None
+    for mn, m in priv.items():
+        tc = this_calls(m["function"])
+        if bytes_w and len(tc) == 1 and tc[0][0] == bytes_w and tc[0][1]:
+            k = of_len(tc[0][1][0])
+            if k == 1:
+                byte_w = mn
+            elif k == 4:
+                u32_w = mn
+    for mn, m in priv.items():
+        tc = [c[0] for c in this_calls(m["function"])]
+        if u32_w and bytes_w and tc[:2] == [u32_w, bytes_w] and any(nn["type"] == "CallExpression" and s(nn["callee"]).endswith(".encode") for nn in walk(m["function"])):
+            utf8_w = mn
+    rep.ob("C13.3", "writer/roles", all([bytes_w, byte_w, u32_w, utf8_w]),
+           "could not identify the writer's primitives (block feeder %s, single byte %s, big-endian word %s, length-prefixed text %s)" % (bytes_w, byte_w, u32_w, utf8_w),
+           mod.loc(w.node), sample={"block_feeder": bytes_w, "byte": byte_w, "uint32": u32_w, "length_prefixed_utf8": utf8_w})
     tagbytes = {}
-    for mname, m in w.methods.items():
-        if mname.startswith("update") and m.get("accessibility") != "private":
-            bs = []
-            for n in walk(m["function"]):
-                mc = method_call(n) if n["type"] == "CallExpression" else None
-                if mc and mc[1] == "updateByte":
-                    for x in walk(mc[2][0]):
-                        if x["type"] == "NumericLiteral":
-                            bs.append(int(x["value"]))
-                        elif x["type"] == "Identifier" and x["value"] in _CONSTS:
-                            bs.append(_CONSTS[x["value"]])
-            tagbytes[mname] = bs
+    publics = {mn: m for mn, m in priv.items() if m.get("accessibility") != "private" and mn not in (bytes_w, byte_w, u32_w, utf8_w)
+               and any(c[0] == byte_w for c in this_calls(m["function"]))}
+    for mname, m in publics.items():
+        bs = []
+        for cname_, args_, node_ in this_calls(m["function"]):
+            if cname_ == byte_w and args_:
+                for x in walk(args_[0]):
+                    if x["type"] == "NumericLiteral":
+                        bs.append(int(x["value"]))
+                    elif x["type"] == "Identifier" and x["value"] in _CONSTS:
+                        bs.append(_CONSTS[x["value"]])
+        tagbytes[mname] = bs
     allb = [b for bs in tagbytes.values() for b in bs]
-    rep.ob("C13.3", "writer/type-bytes-distinct", len(allb) == len(set(allb)) and all(tagbytes.values()),
-           "every public update* primitive must start with its own type byte (found %s)" % tagbytes, mod.loc(w.node), sample={"type_bytes": tagbytes})
-    for mname in ("updateTag", "updateString", "updateNumber"):
-        m = w.methods.get(mname)
-        ok = m is not None and any(method_call(n) and method_call(n)[1] == "updateUtf8WithLength" for n in walk(m["function"]) if n["type"] == "CallExpression")
-        rep.ob("C13.3", "writer/%s-length-prefixed" % mname, ok, "%s must write a length-prefixed payload" % mname, mod.loc(w.node))
-    lp = w.methods.get("updateUtf8WithLength")
+    rep.ob("C13.3", "writer/type-bytes-distinct", len(allb) == len(set(allb)) and all(tagbytes.values()) and len(tagbytes) >= 4,
+           "every public write primitive must start with its own type byte (found %s)" % tagbytes, mod.loc(w.node), sample={"type_bytes": tagbytes})
+    for mname, m in sorted(publics.items()):
+        tc = [c[0] for c in this_calls(m["function"])]
+        payload = [c for c in tc if c != byte_w]
+        has_param = len(m["function"]["params"]) >= 1 and any(
+            x["type"] == "Identifier" and x["value"] == (ts_common.fn_params(m["function"]) or [None])[0]
+            for c in this_calls(m["function"]) if c[0] != byte_w for a_ in c[1] for x in walk(a_))
+        if not payload:
+            continue
+        rep.ob("C13.3", "writer/%s-length-prefixed" % mname, all(c == utf8_w for c in payload),
+               "%s writes a variable-length payload through %s: it must go through the length-prefixed text writer, otherwise two different sequences of writes give the same byte stream" % (mname, payload), mod.loc(m))
+    lp = w.methods.get(utf8_w) if utf8_w else None
     if lp:
-        calls = [method_call(n)[1] for n in walk(lp["function"]) if n["type"] == "CallExpression" and method_call(n) and s(method_call(n)[0]) == "this"]
-        rep.ob("C13.3", "writer/length-before-bytes", calls[:2] == ["updateUint32", "updateBytes"], "the byte length must be written before the bytes (calls %s)" % calls, mod.loc(lp))
+        calls = [c[0] for c in this_calls(lp["function"])]
+        rep.ob("C13.3", "writer/length-before-bytes", calls[:2] == [u32_w, bytes_w], "the byte length must be written before the bytes (calls %s)" % calls, mod.loc(lp))
     # per class
     fam = ts_common.Family(cx)
     cm = fam.mod
     tags = {}
     rep.rule("C13.2", "field coverage of hash256()")
-    table = cx.table("c13_derived_fields.json")["fields"]
-    derived = {(e["class"], e["field"]) for e in table}
+    table = cx.table("c13_derived_fields.json")["params"]
+    tabled = {(e["class"], e["param"]) for e in table}
+    derived = set()   # legacy (class, "<leading-tag>") markers: none
     n_cls = 0
     for cname, c in sorted(fam.classes.items()):
         defc, m = fam.resolve_method(cname, "hash256")
@@ -444,11 +499,33 @@ def run(cx, rep):
         # field coverage
         reads = ts_common.this_fields_read(fn)
         for fname, (owner, ann) in sorted(fam.all_fields(cname).items()):
-            if fname == "metadata" or (cname, fname) in derived or (owner, fname) in derived:
+            if fname == "metadata":
                 continue
-            rep.ob("C13.2", "%s.%s" % (cname, fname), fname in reads,
-                   "%s.hash256 does not read the constructor field `%s`: two validators that differ only there get the same digest" % (cname, fname), cm.loc(fn),
-                   sample={"class": cname, "field": fname})
+            ok = fname in reads
+            why = None
+            if not ok:
+                # which constructor parameters is the field computed from?  It is covered when each of them is stored
+                # in a field that IS read, or is tabled (class, position) with a reason
+                oc = fam.classes.get(owner) or c
+                pnames = [p[0] for p in oc.ctor_params()]
+                rhs = oc.ctor_assignments().get(fname)
+                if rhs is None and fname in pnames:
+                    srcs = [fname]           # parameter property
+                else:
+                    srcs = sorted({x["value"] for x in walk(rhs) if x["type"] == "Identifier" and x["value"] in pnames}) if rhs is not None else []
+                def covered(pn):
+                    if (owner, pnames.index(pn)) in tabled or (cname, pnames.index(pn)) in tabled:
+                        return "tabled"
+                    for f2, r2 in oc.ctor_assignments().items():
+                        if f2 != fname and f2 in reads and unparen(r2).get("type") == "Identifier" and unparen(r2)["value"] == pn:
+                            return "stored in %s (hashed)" % f2
+                    return None
+                if srcs and all(covered(pn) for pn in srcs):
+                    ok = True
+                    why = {pn: covered(pn) for pn in srcs}
+            rep.ob("C13.2", "%s.%s" % (cname, fname) if fname in reads else "%s#%s" % (cname, "+".join(str(x) for x in (sorted(why) if why else [fname]))), ok,
+                   "%s.hash256 does not read the constructor field `%s` (nor is the field computed only from constructor parameters that are hashed through another field): two validators that differ only there get the same digest" % (cname, fname), cm.loc(fn),
+                   sample={"class": cname, "field": fname, "covered_by": why or "read by hash256"})
         # loops preceded by a length write
         check_loops(rep, cm, cname, fn)
         # optional parts tagged on both branches
